@@ -62,22 +62,46 @@ func (h hdr) text(sub bool) string {
 	return sb.String()
 }
 
-const (
-	r1 = "2020-01-01"
-	r2 = "2021-06-30"
-	r3 = "2022-01-01"
+// the three revision dates r1 < r2 < r3, in several relations to each other: years apart; one year,
+// months apart (month and day digits swapped between two of them); one month, days apart; across
+// the turn of a year; differing in the last digit only
+var dateSets = [][3]string{
+	{"2020-01-01", "2021-06-30", "2022-01-01"},
+	{"2020-02-10", "2020-10-02", "2020-10-03"},
+	{"2021-06-04", "2021-06-19", "2021-06-20"},
+	{"2019-12-31", "2020-01-01", "2020-01-02"},
+	{"2020-09-09", "2020-09-10", "2020-10-09"},
+}
+
+var (
+	r1, r2, r3  string
+	hdrs        []hdr
+	importDates []string
+	curDates    = -1
 )
 
-var hdrs = []hdr{{"none", nil}, {"r1", []string{r1}}, {"r2", []string{r2}}, {"r2r1", []string{r2, r1}}, {"r1r2", []string{r1, r2}}, {"r3r2", []string{r3, r2}}, {"r1b", []string{r1}}}
-var importDates = []string{"", r1, r2, r3, "2019-01-01"}
+func setDates(k int) {
+	if k == curDates {
+		return
+	}
+	curDates = k
+	r1, r2, r3 = dateSets[k][0], dateSets[k][1], dateSets[k][2]
+	hdrs = []hdr{{"none", nil}, {"r1", []string{r1}}, {"r2", []string{r2}}, {"r2r1", []string{r2, r1}}, {"r1r2", []string{r1, r2}}, {"r3r2", []string{r3, r2}}, {"r1b", []string{r1}}}
+	importDates = []string{"", r1, r2, r3, "2019-01-01"}
+}
+
+func init() { setDates(0) }
 
 type RevInput struct {
 	Sub bool  `json:"submodule"` // the headers are submodules bound through include instead of modules bound through import
 	Seq []int `json:"seq"`       // indexes into the header pool
+	// Dates: which triple of revision dates r1 < r2 < r3 stands behind the pool (dateSets)
+	Dates int `json:"dates,omitempty"`
 }
 
 // revObserve loads the sequence and returns accept/reject per load, the registry and the bindings.
 func revObserve(in RevInput) (acc []bool, keys map[string]string, bind map[string]string) {
+	setDates(in.Dates)
 	load := func(ms *yang.Modules) []bool {
 		var a []bool
 		for n, i := range in.Seq {
@@ -166,6 +190,7 @@ func fmtMap(m map[string]string) string {
 }
 
 func checkRev(in RevInput) *fail {
+	setDates(in.Dates)
 	var f *fail
 	pan, pt := core.Guard(func() {
 		// reference: a load is rejected iff the same latest revision of the name is already loaded
@@ -754,6 +779,9 @@ type Input struct {
 
 func shards(tier string) []string {
 	out := []string{"rev/mod", "rev/sub"}
+	for d := 1; d < len(dateSets); d++ {
+		out = append(out, fmt.Sprintf("rev/mod/d%d", d), fmt.Sprintf("rev/sub/d%d", d))
+	}
 	for i := 0; i < 16; i++ {
 		out = append(out, fmt.Sprintf("file/%d", i))
 	}
@@ -774,14 +802,19 @@ func subsets(names []string, mask int) []string {
 }
 
 func run(c *core.Ctx) {
-	c.Res.Bound = "rev: load sequences of <= 3 (thorough 4) of 7 header variants with repeats, modules and submodules, 5 import/include spellings; file: all subsets of 6 (thorough 8..11) file names in each of 2 path directories x 3 requests; split: 9 items in every partition into main + 2 submodules x 4 cross-include patterns that keep references resolvable x 3 load orders"
+	c.Res.Bound = "rev: load sequences of <= 3 (thorough 4) of 7 header variants with repeats, modules and submodules, 5 import/include spellings, under 5 triples of revision dates (years, months, days apart; across the turn of a year; digits swapped); file: all subsets of 6 (thorough 8..11) file names in each of 2 path directories x 3 requests; split: 9 items in every partition into main + 2 submodules x 4 cross-include patterns that keep references resolvable x 3 load orders"
 	report := func(caseNo int64, in Input, f *fail) {
 		c.Outcome("FAIL:" + f.fp)
 		c.Fail(caseNo, f.classes, f.fp, in, f.exp, f.obs)
 	}
 	switch {
 	case strings.HasPrefix(c.Shard, "rev/"):
-		sub := c.Shard == "rev/sub"
+		sub := strings.HasPrefix(c.Shard, "rev/sub")
+		dates := 0
+		if i := strings.Index(c.Shard, "/d"); i > 0 {
+			fmt.Sscanf(c.Shard[i:], "/d%d", &dates)
+		}
+		setDates(dates)
 		max := 3
 		if c.Tier == "thorough" {
 			max = 4
@@ -790,7 +823,7 @@ func run(c *core.Ctx) {
 		var rec func(seq []int)
 		rec = func(seq []int) {
 			if len(seq) > 0 {
-				in := RevInput{Sub: sub, Seq: append([]int{}, seq...)}
+				in := RevInput{Sub: sub, Seq: append([]int{}, seq...), Dates: dates}
 				caseNo, run := c.Begin()
 				if c.Skip(caseNo, run, Input{Rev: &in}) {
 					return
@@ -872,7 +905,7 @@ func run(c *core.Ctx) {
 					fmt.Sscan(s, &v)
 					ms = append(ms, v)
 				}
-				in := RevInput{Sub: sub, Seq: ms}
+				in := RevInput{Sub: sub, Seq: ms, Dates: dates}
 				cl := orderClasses(ms)
 				report(caseNo, Input{Rev: &in}, &fail{"order-dependent-registry", "one outcome for all orders of the multiset", strings.Join(d, "\n"), cl})
 			}
@@ -961,6 +994,33 @@ func run(c *core.Ctx) {
 						} else {
 							c.Outcome("chooser-as-required:near-miss-names")
 						}
+					}
+				}
+			}
+		}
+		// dated files whose dates stand in every relation to each other (days, months, a year apart,
+		// across the turn of a year, digits swapped): the latest wins
+		if shard == len(fileStems) {
+			dn := []string{"a@2021-06-04.yang", "a@2021-06-19.yang", "a@2021-06-20.yang", "a@2020-12-31.yang", "a@2021-01-01.yang", "a@2020-10-02.yang", "a@2020-02-10.yang", "a@2020-09-10.yang", "a@2020-10-09.yang"}
+			for m1 := 1; m1 < 1<<len(dn); m1++ {
+				if c.Expired() {
+					return
+				}
+				for _, stem := range []string{"", "a.b"} {
+					in := FileInput{Dirs: [][]string{nil, subsets(dn, m1), {"a@2022-01-01.yang"}}, Request: "a", Stem: stem, Links: m1%7 == 0}
+					caseNo, run := c.Begin()
+					if c.Skip(caseNo, run, Input{File: &in}) {
+						continue
+					}
+					c.Exec()
+					c.Validate()
+					c.Edge(1)
+					c.StateN(1)
+					c.NontrivialN(1)
+					if f := checkFile(e, in); f != nil {
+						report(caseNo, Input{File: &in}, f)
+					} else {
+						c.Outcome("chooser-as-required:related-dates")
 					}
 				}
 			}
